@@ -640,11 +640,11 @@ func c02Reject(c *Ctx) {
 			}) && lastIs(r, func(a an.PathAtom) bool {
 				return atomCall(".Overlaps", true)(a) && strings.Contains(a.Cond.String(), "plugin.Prefix") == false && a.Cond.Args[0].IsField("Prefix") && a.Cond.Args[1].IsField("Prefix") &&
 					strings.Contains(typeStr(a.Cond.Args[0].Args[0].Typ), "plugin.Prefix")
-			}) && r.has(func(a an.PathAtom) bool {
+			}) && (r.has(func(a an.PathAtom) bool {
 				return cmpAtom(a, func(x, y *an.Expr, op token.Token) bool {
 					return op == token.NEQ && x.Typ != nil && strings.HasSuffix(typeStr(x.Typ), "*plugin.Prefix") && y.Typ != nil && strings.HasSuffix(typeStr(y.Typ), "*plugin.Prefix")
 				}) || (isIndexCompare(a) && func() bool { _, _, op, _ := effCmp(a); return op == token.NEQ }())
-			})
+			}) || r.has(func(a an.PathAtom) bool { return c.laterElementPair(a) }))
 		}},
 		{"routes-wildcard-once", "parsePlugins", "the ::/0 wildcard route is given at most once", func(r rejection) bool {
 			// a "routes overlap" rejection that a pair of two wildcard stanzas can reach: the path does not
@@ -686,11 +686,11 @@ func c02Reject(c *Ctx) {
 				return a.Cond.Op == an.OpBin && (a.Cond.Tok == token.NEQ || a.Cond.Tok == token.EQL) && isAutoCmp(a.Cond.Args[0]) && isAutoCmp(a.Cond.Args[1])
 			}) && lastIs(r, func(a an.PathAtom) bool {
 				return atomCall(".Overlaps", true)(a) && a.Cond.Args[0].IsField("Prefix") && strings.Contains(typeStr(a.Cond.Args[0].Args[0].Typ), "plugin.Route")
-			}) && r.has(func(a an.PathAtom) bool {
+			}) && (r.has(func(a an.PathAtom) bool {
 				return cmpAtom(a, func(x, y *an.Expr, op token.Token) bool {
 					return op == token.NEQ && x.Typ != nil && strings.HasSuffix(typeStr(x.Typ), "*plugin.Route") && y.Typ != nil && strings.HasSuffix(typeStr(y.Typ), "*plugin.Route")
 				}) || (isIndexCompare(a) && func() bool { _, _, op, _ := effCmp(a); return op == token.NEQ }())
-			})
+			}) || r.has(func(a an.PathAtom) bool { return c.laterElementPair(a) }))
 		}},
 		{"mtu-out-of-range", "parsePlugins", "0 <= mtu <= 65536", func(r rejection) bool {
 			return lastIs(r, func(a an.PathAtom) bool {
